@@ -22,6 +22,7 @@
   represented by their row-major / block-concatenated flattening with the shape kept in `Meta`.
 -/
 import Scico.Model.DType
+import Scico.Model.LinOps
 
 namespace Scico.OpAlg
 open Scico.DType
@@ -1229,6 +1230,56 @@ def drep (lin : Bool) (o : Obj α) (N : Nat) (ia : Int) (oa : Option Int) : Exce
           else .ok (mkOp (.plain (insertDim din a N)) (.plain (insertDim dout b N)) o.md.inDt o.md.outDt ev o.evalDt)
 
 end drep
+
+/-! ### closed-form arithmetic of `Convolve` (`scico/linop/_convolve.py:82-136`), same-class operands
+
+`Convolve(h, input_shape=(n,), mode)` on one axis, evaluated by `Scico.LinOps.convEval` (the model of
+`jax.scipy.signal.convolve` of engine LinOps, read-only).  `A ± B`, `c·A`, `A/c` build a new `Convolve`
+whose filter is the combination of the filters. -/
+
+section convarith
+variable {α : Type} [Add α] [Sub α] [Mul α] [Div α] [Neg α] [Zero α] [One α] [HasConj α] [HasRe α]
+
+structure ConvOp (α : Type) where
+  h : Nat → α
+  /-- filter length -/
+  k : Nat
+  /-- input length -/
+  n : Nat
+  mode : Scico.LinOps.ConvMode
+  inDt : DT
+  /-- dtype of the filter array -/
+  hDt : DT
+
+def ConvOp.outLen (c : ConvOp α) : Nat := Scico.LinOps.convLen c.mode c.n c.k
+/-- `output_dtype = result_type(input_dtype, h.dtype)` -/
+def ConvOp.outDt (c : ConvOp α) : DT := resultType c.inDt c.hDt
+/-- `_eval = convolve(x, h, mode)` -/
+def ConvOp.eval (c : ConvOp α) (x : Nat → α) : Nat → α := Scico.LinOps.convEval c.mode c.h c.k x c.n
+
+/-- `Convolve.__add__/__sub__` behind `_wrap_add_sub` (operand of the same class): operator shapes,
+    then modes (`ValueError: Incompatible modes`), then filter shapes -/
+def ConvOp.addSub (sub : Bool) (a b : ConvOp α) : Except Err (ConvOp α) :=
+  if a.n ≠ b.n ∨ a.outLen ≠ b.outLen then .error .shape
+  else if a.mode ≠ b.mode then .error .value
+  else if a.k ≠ b.k then .error .shape
+  else .ok { h := fun i => pm sub (a.h i) (b.h i), k := a.k, n := a.n, mode := a.mode
+             inDt := resultType a.inDt b.inDt, hDt := resultType a.hDt b.hDt }
+
+/-- `Convolve.__mul__/__rmul__` (`h * scalar`; `input_dtype = result_type(input_dtype, scalar)`, see the
+    finding `convolve-jax-scalar` for the pinned `type(scalar)`) -/
+def ConvOp.smul (a : ConvOp α) (c : Scal α) : Except Err (ConvOp α) :=
+  if c.kind.isScalarEquiv then
+    .ok { a with h := fun i => a.h i * c.val, inDt := resultTypeS a.inDt c.kind.sk, hDt := resultTypeS a.hDt c.kind.sk }
+  else .error .type
+
+/-- `Convolve.__truediv__` -/
+def ConvOp.sdiv (a : ConvOp α) (c : Scal α) : Except Err (ConvOp α) :=
+  if c.kind.isScalarEquiv then
+    .ok { a with h := fun i => a.h i / c.val, inDt := resultTypeS a.inDt c.kind.sk, hDt := resultTypeS a.hDt c.kind.sk }
+  else .error .type
+
+end convarith
 
 /-! ### expressions -/
 
